@@ -24,6 +24,8 @@ import (
 	"github.com/gogo/protobuf/jsonpb"
 
 	"verif/cmd/h-codec/cdump"
+	"verif/internal/ioshape"
+	"verif/internal/rng"
 )
 
 // input is one fuzz input; it is also the replayable description of the case.
@@ -61,6 +63,8 @@ type result struct {
 	UTF8     bool     `json:"utf8"`      // every string of the decoded message is valid UTF-8
 	NilGroup bool     `json:"nil_group"` // the decoded message holds a data point group without data id
 	Counters bool     `json:"counters_ok"`
+	Shape    string   `json:"reader_shape,omitempty"`     // the second DecodeFrom of step (c), through another io.Reader shape
+	ShapeErr string   `json:"reader_shape_error,omitempty"` // how it differs from the bytes.Reader run ("" = not at all)
 	Retries  int      `json:"retries,omitempty"` // repetitions needed to see one structure in all three parses
 	convTerm string
 	Wire     string   `json:"wire,omitempty"` // verdict of the wire.ClientConn scenario (wire.go)
@@ -232,6 +236,40 @@ func runInputOnce(idx int, in *input) (res result) {
 		m = dm
 		res.Dec, res.DecTerm, res.DecType = 0, cdump.Wire(dm), reflect.TypeOf(dm).Elem().Name()
 	}()
+
+	// (c') the same bytes through another io.Reader shape (last data together with EOF, one byte at a
+	// time, halves, random chunks, (0, nil) now and then): same outcome, same message, and the reported
+	// count is what DecodeFrom pulled from the reader (protobuf: everything)
+	if res.Dec != 2 {
+		h := uint64(len(bs))
+		for _, c := range bs {
+			h = h*1099511628211 + uint64(c)
+		}
+		sh := 1 + int(h%uint64(ioshape.NReaderShapes-1))
+		res.Shape = ioshape.ReaderNames[sh]
+		func() {
+			defer func() {
+				if r := recover(); r != nil {
+					res.ShapeErr = fmt.Sprintf("panic escaped DecodeFrom behind a %s reader: %v", res.Shape, r)
+				}
+			}()
+			top := &ioshape.Counting{R: ioshape.Reader(sh, bs, rng.New(h))}
+			sn, sm, serr := e.DecodeFrom(top)
+			ambiguous := in.Enc == "json" && ambiguousJSON(bs)
+			switch {
+			case ambiguous:
+			case (serr == nil) != (res.Dec == 0):
+				res.ShapeErr = fmt.Sprintf("behind a %s reader DecodeFrom gives error=%v, behind a bytes.Reader error=%v", res.Shape, serr, res.DecErr)
+			case serr == nil && cdump.Wire(sm) != res.DecTerm:
+				res.ShapeErr = fmt.Sprintf("behind a %s reader DecodeFrom produces a different message", res.Shape)
+			}
+			if serr == nil && res.ShapeErr == "" {
+				if sn != top.N || (in.Enc != "json" && sn != len(bs)) {
+					res.ShapeErr = fmt.Sprintf("behind a %s reader DecodeFrom reports %d bytes but pulled %d (input %d bytes)", res.Shape, sn, top.N, len(bs))
+				}
+			}
+		}()
+	}
 
 	// (d) encoding.Transport.Read with the configured maximum
 	func() {
